@@ -257,48 +257,65 @@ def residual(lhs, rhs, scale, unit):
     return [int(units), int(sgn)], info
 
 
-# ---- dispatch shapes ------------------------------------------------------------------------
-# element values per argument position (dyadic, so f4 and f8 hold the same number; integers for i8);
-# they include zmin < zmax, zmin = zmax and zmin > zmax (sigmacritinv's zero branch)
-VALS = {"float": ([0.5, 1.0, 0.25], [1.5, 1.0, 0.125]),
-        "int": ([0, 1, 3], [2, 1, 1])}
-SCALAR = (0.5, 1.5)
+# ---- dispatch representations ---------------------------------------------------------------
+# Value tables per argument position (dyadic, so f4 and f8 hold the same number; integers for the integer
+# types).  Position 0 / 1 = first / second redshift argument.  They include zmin < zmax, zmin = zmax and
+# zmin > zmax (sigmacritinv's zero branch), narrow intervals and intervals wider than 2 and 4 (a scalar
+# routine that treats wide intervals differently from its vector twin shows up), and zmin = 0.
+VALS = {"float": ([0.5, 1.0, 0.25], [4.5, 1.0, 0.125]),
+        "int": ([0, 1, 3], [5, 1, 1])}
+SCALAR = {"float": (0.5, 4.0), "int": (1, 4)}
+INT_DT = ("int", "i8", "i4", ">i8")
 
 
-def element(kind, which, i):
-    """the binary64 value of element i (1-based; 0 = the scalar) of argument `which` (0|1)"""
+def _fam(rep):
+    return "int" if rep["dt"] in INT_DT else "float"
+
+
+def element(rep, which, i):
+    """the binary64 VALUE of entry i of the value table (1-based; 0 = the scalar) of argument `which` (0|1)"""
+    fam = _fam(rep)
     if i == 0:
-        return SCALAR[which]
-    return float(VALS["int" if kind == "i8" else "float"][which][i - 1])
+        return float(SCALAR[fam][which])
+    return float(VALS[fam][which][i - 1])
 
 
-def concretise(shape, which):
-    kind, n = shape["kind"], shape["len"]
-    if kind == "scalar":
-        return SCALAR[which]
-    if kind == "absent":
+def concretise(rep, which):
+    """abstract representation [cls, dt, lay, len] -> the python object handed to the real code"""
+    cls, dt, lay, n = rep["cls"], rep["dt"], rep["lay"], rep["len"]
+    fam = _fam(rep)
+    conv = int if fam == "int" else float
+    if cls == "absent":
         return None
-    v = [element(kind, which, i) for i in range(1, n + 1)]
-    if kind == "list":
-        return list(v)
-    if kind == "f4":
-        return np.array(v, dtype="f4")
-    if kind == "f8":
-        return np.array(v, dtype="f8")
-    if kind == "i8":
-        return np.array([int(x) for x in v], dtype="i8")
-    if kind == "strided":                      # every other element of a longer buffer
-        buf = np.full(2 * n, 4.75, dtype="f8")
+    if cls == "pyfloat":
+        return float(SCALAR[fam][which])
+    if cls == "pyint":
+        return int(SCALAR[fam][which])
+    if cls == "npscalar":
+        return np.dtype(dt).type(SCALAR[fam][which])
+    tab = VALS[fam][which]
+    if cls in ("list", "tuple"):
+        v = [conv(tab[k]) for k in range(n)]
+        return v if cls == "list" else tuple(v)
+    if cls != "ndarray":
+        raise ValueError("unknown representation class %r" % cls)
+    dtype = np.dtype(dt)
+    filler = conv(4.75) if fam == "float" else 4
+    if lay == "zerod":
+        return np.array(conv(tab[0]), dtype=dtype)
+    if lay == "f2d":                            # shape (2, n), Fortran order; C-order element k holds table entry (k mod 3)
+        flat = [conv(tab[k % 3]) for k in range(2 * n)]
+        a = np.asfortranarray(np.array(flat, dtype=dtype).reshape(2, n))
+        if n > 1 and not a.flags.f_contiguous:
+            raise ValueError("could not build a Fortran-ordered array")
+        return a
+    v = [conv(tab[k]) for k in range(n)]
+    if lay == "contig":
+        return np.array(v, dtype=dtype)
+    if lay == "strided":                        # every other element of a longer buffer
+        buf = np.full(2 * n, filler, dtype=dtype)
         buf[::2] = v
         return buf[::2]
-    if kind == "reversed":                     # negative stride
-        return np.array(v[::-1], dtype="f8")[::-1]
-    if kind == "f4strided":
-        buf = np.full(3 * n, 4.75, dtype="f4")
-        buf[::3] = v
-        return buf[::3]
-    if kind == "bigendian":
-        return np.array(v, dtype=">f8")
-    if kind == "tuple":
-        return tuple(v)
-    raise ValueError("unknown shape kind %r" % kind)
+    if lay == "reversed":                       # negative stride
+        return np.array(v[::-1], dtype=dtype)[::-1]
+    raise ValueError("unknown layout %r" % lay)
